@@ -4,7 +4,7 @@
 // terminal_is_recognised).  One instantiation per format because the hook structs are private.
 
 use super::*;
-use crate::verif_common::{instr_round_trip, instr_size_field, terminal_is_recognised, Stored, SizeField};
+use crate::verif_common::{label_round_trip, instr_round_trip, instr_size_field, terminal_is_recognised, Stored, SizeField};
 
 macro_rules! c03 {
     ($name:ident, $unwind:literal, $body:expr) => {
@@ -60,6 +60,9 @@ c03!(c03_tl08_rt_n12, 15, instr_round_trip::<12>(&TimelineFormat08, Stored { par
 c03!(c03_tl08_size_field, 4, instr_size_field(&TimelineFormat08, Stored { param_mask: false, difficulty: true, extra_arg: false, pop_and_arg_count: false, maybe_terminal: false, ignore_param_mask: false }, SizeField { offset: 6, width: 1, counts_header: true, reader_max: 255 }, 70000));
 //@ C03 c03_tl08_terminal quick default ECL timeline (TH08+): the end-of-script marker written by write_terminal_instr is recognised as such by read_instr
 c03!(c03_tl08_terminal, 8, terminal_is_recognised(&TimelineFormat08, false, 0));
+
+//@ C03 c03_label_ecl06 quick default ECL TH06-095 label encoding (signed offset relative to the jumping instruction): decode_label(cur, encode_label(cur, dest)) == dest for every pair of offsets below 2^31, forwards and backwards
+c03!(c03_label_ecl06, 2, label_round_trip(&OldeEclHooks { game: Game::Th07 }, 1));
 
 #[cfg(kani)]
 #[path = "/verif/.cache/playback/ecl_06.rs"]
